@@ -1871,7 +1871,7 @@ func TestC14(t *testing.T) {
 			continue
 		case i >= 1 && i <= 4: // the governance matrix: who x role x stage of the proposal's life
 			cases := govMatrix()
-			rng.Shuffle(len(cases), func(a, b int) { cases[a], cases[b] = cases[b], cases[a] })
+			rand.New(rand.NewSource(seed)).Shuffle(len(cases), func(a, b int) { cases[a], cases[b] = cases[b], cases[a] })
 			for k := 0; k < 5; k++ {
 				c := cases[((i-1)*5+k)%len(cases)]
 				w.govScenario(c, w.byID[1+k], w.byID[11+k], w.byID[6])
@@ -1948,6 +1948,11 @@ func (w *world) govScenario(c govCase, src, tgt, helper *actor) {
 	}
 	id, err := w.s.App.GovKeeper.Keeper.ProposalID.Peek(w.s.Ctx)
 	must(err)
+	top := w.amt(2500) // the third account and the involved one can always afford the minimum deposit
+	for _, a := range []*actor{helper, x} {
+		w.s.MintToken(a.addr, w.coin(top))
+		w.emit(fmt.Sprintf("mint %d 0 %s", a.id, top), "ok")
+	}
 	voting := strings.HasPrefix(c.phase, "voting") || c.phase == "closed-voted"
 	zero := sdkmath.ZeroInt()
 	switch c.role {
